@@ -64,6 +64,11 @@ func NewGrafanaNetConfig(addr, apiKey, schemasFile, aggregationFile string) (Gra
 	if !strings.HasSuffix(u.Path, "/metrics") && !strings.HasSuffix(u.Path, "/metrics/") {
 		return GrafanaNetConfig{}, fmt.Errorf("NewGrafanaNetConfig: invalid value for 'addr': %q. needs to be a /metrics endpoint", addr)
 	}
+	// the schemas and aggregation urls are derived from the address as written (see getGrafanaNetAddr),
+	// so a query, a fragment or an extra slash after /metrics cannot be supported
+	if !strings.HasSuffix(strings.TrimSuffix(addr, "/"), "/metrics") {
+		return GrafanaNetConfig{}, fmt.Errorf("NewGrafanaNetConfig: invalid value for 'addr': %q. needs to end on /metrics or /metrics/", addr)
+	}
 
 	if apiKey == "" {
 		return GrafanaNetConfig{}, errors.New("NewGrafanaNetConfig: invalid value for 'apiKey'. value must be set to non-empty string")
